@@ -566,6 +566,11 @@ func genResp(r *rng, limits []uint32) *respCase {
 	case 4:
 		b.Junk = pick(r, [][]byte{{0}, []byte("junk after the end"), {0, 0, 0, 0, 1, 'x'}})
 		tag += "+junk"
+	case 6:
+		// an envelope's worth of bytes missing at the end: the states "nothing of the next envelope
+		// yet" and "five bytes of payload missing" must not be confused
+		b.Cut = 5
+		tag += "+cut"
 	case 5:
 		b.BadEnd = 1 + r.intn(2)
 		if b.badEndEffective() {
